@@ -229,14 +229,14 @@ example : ∀ q, ((runPlan Plan.none (mainP Proofs.StdinExample.env0 Proofs.Stdi
   C04_stdin_spool_removed _ _ _ _ _ _ _ _ rfl rfl Proofs.StdinExample.ex_stdinExprs Proofs.StdinExample.ex_stdinIs
     Proofs.StdinExample.ex_fresh (fun _ _ => rfl)
 
-/-- Exit status 0 means stored (= `C02_stdin_exit0`; for a rule tree that asks the operating system nothing). -/
+/-- Exit status 0 means stored (= `C02_stdin_exit0`; see there and `C02_stdin_exit0_stored`). -/
 theorem C04_stdin_zero_means_stored (env : PEnv) (orc : EvalOracles) (conf : List ConfBlock) (files : Files) (input : Bytes)
     (expr : Expr) (w : World) (plan : Plan) (hm : env.stdinMode = true) (hs : env.syntaxOnly = false)
     (hc : Proofs.World.stdinExprs conf = [expr]) (hin : Proofs.World.StdinIs w input)
-    (hfresh : Proofs.World.SpoolFresh env w) (hfree : Proofs.asksFree expr = true) :
+    (hfresh : Proofs.World.SpoolFresh env w) :
     let r := runPlan plan (mainP env orc true conf files input) w 0 []
     r.1.1 = 0 → Proofs.Delivered env orc expr input r.2.1 :=
-  Proofs.stdin_exit0 env orc conf files input expr w plan hm hs hc hin hfresh hfree
+  Proofs.stdin_exit0 env orc conf files input expr w plan hm hs hc hin hfresh
 
 /-- In stdin mode the status is 75 iff an error occurred, else 1 iff a reject was executed, else 0 -
 as equivalences on the final loop state, for every configuration, input and fault plan. -/
